@@ -59,3 +59,23 @@ Theorem sock_no_leak_at_exit : forall h,
     k_freed x = true /\ k_nfree x = 1%nat /\ k_nfdc x = 1%nat /\ k_fd x = false.
 Proof. exact no_leak_at_exit. Qed.
 Print Assumptions sock_no_leak_at_exit.
+
+(* on_wake drains the whole hand-over queue: when it leaves its while loop (mutex released,
+   cb_wake due) the queue is empty and no context is left in the queued position, however many
+   muggle_socket_evloop_add_ctx calls coalesced into the wake-up; for every history *)
+Theorem handover_queue_drained_per_wake : forall h s' r,
+  step (run init h) ETauWakeUnlock = Some (s', r) ->
+  queue s' = [] /\ pc s' = PWakeCb /\
+  forall c x, nth_error (ctxs s') c = Some x -> k_loc x <> LQueue.
+Proof. exact queue_drained_per_wake. Qed.
+Print Assumptions handover_queue_drained_per_wake.
+
+(* ... and it cannot end, nor take anything but the queue's head, while a context is queued:
+   registration happens in queue order and before cb_wake (the wake-up itself reaching the loop
+   is C14's wake_not_lost) *)
+Theorem handover_registered_in_queue_order : forall s c q,
+  pc s = PWake -> queue s = c :: q ->
+  step s ETauWakeUnlock = None /\ step s EWake = None /\
+  forall d ok, d <> c -> step s (EReg d ok) = None.
+Proof. exact wake_cannot_end_with_queued. Qed.
+Print Assumptions handover_registered_in_queue_order.
